@@ -95,6 +95,13 @@ def run(ctx: Ctx):
         n, m = int(rng.integers(2, 8)), int(rng.integers(1, 6))
         grid = np.sort(rng.uniform(-5, 5, n)); grid = grid + np.arange(n) * 1e-3
         subs = rng.standard_normal((n, m))
+        # integer and narrow dtypes: neighbouring planes that decrease (unsigned) or span most of the dtype's range
+        sdt = [None, None, np.uint8, np.uint16, np.int8, np.int16, np.int32, np.uint32, np.int64, np.float32][t % 10]
+        if sdt is not None and np.issubdtype(sdt, np.integer):
+            ii = np.iinfo(sdt)
+            subs = rng.integers(max(ii.min, -2 ** 40), min(ii.max, 2 ** 40), (n, m), endpoint=True).astype(sdt)
+        elif sdt is not None:
+            subs = subs.astype(sdt)
         kind = t % 4
         if kind == 0:
             val = float(grid[int(rng.integers(0, n))])                 # at a node
@@ -110,9 +117,11 @@ def run(ctx: Ctx):
         other = np.arange(m, dtype=float)
         g = NssGrid(data, [grid, other] if axis == 0 else [other, grid], ["s", "o"] if axis == 0 else ["o", "s"])
         r = grid_slice_interp(g, val, "s" if t % 2 else axis)
-        got = np.asarray(r.data).ravel()
+        got = np.asarray(r.data, dtype=np.float64).ravel()
+        subs = subs.astype(np.float64)          # the reference and the model blend the VALUES (exact in binary64 up to 2^53)
         lines.append(f"slice {n} {m} {fh(grid)} {fh(subs)} {f2h(val)}")
         cases.append((grid, subs, val, got, kind, list(r.axis_names)))
+        ctx.count(f"slice_dtype_{np.dtype(sdt).name if sdt is not None else 'float64'}")
     out = run_driver(lines)
     for (grid, subs, val, got, kind, rnames), o in zip(cases, out):
         mod = np.array([h2f(x) for x in o])
